@@ -134,3 +134,16 @@ Theorem fp_field_laws : FieldLaws fpo.
 Proof. exact (zq_field_laws p_mod p_mod_gt1 p_small). Qed.
 Theorem fr_field_laws : FieldLaws fro.
 Proof. exact (zq_field_laws r_mod r_mod_gt1 r_small). Qed.
+
+(* the integers act on the concrete scalar field through a ring morphism: the premises
+   fofz_add / fofz_mul / fofz_1 of the C05 / C09 theorems hold for fro *)
+Theorem fro_fofz_morphism :
+  (forall a b, fofz fro (a + b) = fadd fro (fofz fro a) (fofz fro b))
+  /\ (forall a b, fofz fro (a * b) = fmul fro (fofz fro a) (fofz fro b))
+  /\ fofz fro 1 = f1 fro.
+Proof.
+  split; [|split].
+  - intros a b. cbn [fofz fadd fro]. apply zq_eq. unfold fr, zq_add. rewrite !zval_of_Z. apply Zplus_mod.
+  - intros a b. cbn [fofz fmul fro]. apply zq_eq. unfold fr, zq_mul. rewrite !zval_of_Z. apply Zmult_mod.
+  - cbn [fofz f1 fro]. apply zq_eq. reflexivity.
+Qed.
